@@ -111,6 +111,12 @@ def gen_http(rng, tier):
             for cv in (0, 1):
                 ops.append("grpc %s session=%d clustervalid=%d clustercfg=0" % (ty, s, cv))
     cases.append(Case("grpc-nocfg", ops, True, "exhaustive"))
+    srv = []
+    for ty in GRPC_TYPES:
+        for tok in ("none", "empty", "valid", "garbage"):
+            for ct in ("none", "empty", "garbage"):
+                srv.append("grpcsrv %s token=%s ctoken=%s clustercfg=0" % (ty, tok, ct))
+    cases.append(Case("grpcsrv-nocfg", srv, True, "exhaustive"))
     return cases
 
 
@@ -120,7 +126,14 @@ def gen_grpc_cluster(rng, tier):
         for s in (0, 1):
             for cv in (0, 1):
                 ops.append("grpc %s session=%d clustervalid=%d clustercfg=1" % (ty, s, cv))
-    return [Case("grpc-clustercfg", ops, True, "exhaustive")]
+    # the same decisions through the real gRPC service object: the headers of the payload decide (user token x cluster
+    # token: absent, empty, a prefix of the configured one, the configured one, a longer one, garbage)
+    srv = []
+    for ty in GRPC_TYPES:
+        for tok in ("none", "empty", "valid", "garbage"):
+            for ct in ("none", "empty", "prefix", "exact", "longer", "garbage"):
+                srv.append("grpcsrv %s token=%s ctoken=%s clustercfg=1" % (ty, tok, ct))
+    return [Case("grpc-clustercfg", ops, True, "exhaustive"), Case("grpcsrv-clustercfg", srv, True, "exhaustive")]
 
 
 class C16(Prop):
@@ -138,7 +151,7 @@ class C16(Prop):
             "the real InvokerHandler::handle. oracle: a request that reaches a handler of a non-exempt endpoint without a "
             "valid token must have been refused. non-trivial = >=2 ops")),
         ModelRun("openapi", gen_grpc_cluster, lambda c: len(c.ops) >= 2, spec_needs_impl=True,
-                 impl_env={"RNACOS_CLUSTER_TOKEN": "x"}, rule="same gRPC sweep on a node started with a cluster token"),
+                 impl_env={"RNACOS_CLUSTER_TOKEN": "xyzw"}, rule="same gRPC sweep on a node started with a cluster token"),
         ModelRun("cluster", cluster_gen.gen_tokens, lambda c: sum(1 for o in c.ops if o.startswith("tget")) >= 3,
                  spec_needs_impl=True, shrinkable=False, rule=(
             "the repository's own binary with RNACOS_ENABLE_OPEN_API_AUTH=true and access tokens that live 3 s: real logins, "
@@ -150,7 +163,7 @@ class C16(Prop):
         "hand model RNacos/Model/Auth.lean over tables re-extracted by translate/translate.py (IGNORE_PATH, the two regex "
         "literals in recognised shape, ignore_auth / is_cluster_request disjunctions, guard order of InvokerHandler::handle)",
         "actix-web routing and actix_router::Quoter::requote (modelled: every %XX decoded except %25 %2F %2B)",
-        "gRPC fill_token_session (src/grpc/server.rs) is modelled (grpcFill) but not corresponded: only InvokerHandler::handle is executed",
+        "gRPC: both InvokerHandler::handle and the service object RequestServerImpl::request (with fill_token_session reading the payload headers) are executed in-process; the tonic transport is not",
         "token expiry is the cache's TTL: an expired token is represented by a cache entry whose ttl has passed",
     ]
     assumptions = ["main.rs wraps the app in ApiCheckAuth exactly as the in-process sweeps do; the wiring itself is executed only by the "
